@@ -225,3 +225,275 @@ class ZipLatestUpdate(IndexedInputs, NodeUpdate):
 
 
 ALL_PARKED = [ZipLatestUpdate]     # too slow in its present form; see DESIGN
+
+
+# --------------------------------------------------------------------------- zip.update
+from pyvc.state import Unsupported
+from pyvc.loops import LoopSpec as _LoopSpec
+import ast as _ast
+
+PairArr = z3.ArraySort(sym.Obj, sym.SeqElemS)
+heads_of = sym.SpecFun('heads_of', [PairArr], sym.SeqObjS, sym.SeqElemS, zero=lambda a: z3.Empty(sym.SeqElemS),
+                       one=lambda a, u: z3.Unit(sym.sel(a, u)[0]), plus=lambda x, y: z3.Concat(x, y), store_frame=True)
+held_zip = sym.SpecFun('held_zip', [PairArr, sym.Obj], sym.SeqObjS, z3.IntSort(), zero=lambda a, r: z3.IntVal(0),
+                       one=lambda a, r, u: sym.occs(r, sym.mds_of(sym.sel(a, u))), plus=lambda x, y: x + y,
+                       nonneg=True, store_frame=True)
+
+
+class PopAllLoop:
+    """`for buf in self.buffers.values(): buf.popleft()` summarised by its pointwise effect: every buffer loses its head.
+    The body is checked syntactically to be exactly `buf.popleft()`; each iteration touches only its own buffer, so the
+    order of iteration is irrelevant (frame-style loop contract)."""
+
+    def __init__(self, contract):
+        self.c = contract
+
+    def run_for(self, I, node, it, fr):
+        if not (len(node.body) == 1 and _ast.unparse(node.body[0]) == 'buf.popleft()' and _ast.unparse(node.iter) == 'self.buffers.values()'):
+            raise Unsupported('the pop-all loop of zip.update has changed shape: ' + _ast.unparse(node))
+        selfv = fr.locals['self']
+        dv = I.get_attr(selfv, 'buffers', fr)
+        c = I.st.heap[dv.loc]
+        eff = self.c.effective_vals(I, dv)
+        V2 = z3.Const(sym.fresh_name('vals_after_pop'), eff.sort())
+        k = z3.Const(sym.fresh_name('k'), sym.Obj)
+        # precondition of popleft on every buffer: non-empty (established by the all(...) test)
+        I.oblige('every_buffer_non_empty_before_pop', I.st.ghost['all_nonempty_flag'].t, kind='callsite')
+        I.st.obligations[-1].props = ['C01', 'C03']
+        # pointwise effect, instantiated for the inputs the obligations talk about (who, the arbitrary u0, ...); the
+        # universally quantified form is only needed by lemma L-ZIP below
+        for u in self.c.skolems(I):
+            I.st.assume(z3.Select(eff, u) == z3.Concat(z3.Unit(z3.Select(eff, u)[0]), z3.Select(V2, u)))
+        # cut: the arrival added exactly its own holds to the buffers (proved here, then used)
+        U, who, bv, u0, e0, Up, Us = self.c._t
+        md_t = self.c.pre_args['metadata'].t
+        fact = held_zip(eff, R, c.keys) == held_zip(bv, R, c.keys) + sym.occ(R, md_t)
+        I.oblige('arrival_adds_exactly_its_own_holds', fact, kind='callsite')
+        I.st.obligations[-1].props = ['C05']
+        I.st.assume(fact)
+        # lemma L-ZIP (proved by induction in ZipLemmas): holds of all buffers = holds after the pop + holds of the heads
+        I.st.assume(held_zip(eff, R, c.keys) == held_zip(V2, R, c.keys) + sym.occs(R, sym.mds_of(heads_of(eff, c.keys))))
+        I.st.ghost['eff_before_pop'] = eff
+        c2 = c.replace(vals=V2)
+        c2.aliases = ()
+        I.st.heap[dv.loc] = c2
+        # aliases (the local L) now see the popped content
+        for ak, loc in c.aliases:
+            I.st.set_list_term(loc, z3.Select(V2, ak))
+
+
+class ZipUpdate(NodeUpdate):
+    cls = 'zip'
+    props = ['C01', 'C02', 'C03', 'C04', 'C05', 'C10']
+    data_fields = ()
+    inline = ('zip.condition',)
+    abstracted = ('zip.update: the loop `for buf in self.buffers.values(): buf.popleft()` is summarised by its pointwise effect '
+                  '(body checked syntactically)',)
+    assumptions = ('zip without literal arguments (pack_literals is not under contract)', 'inputs are pairwise distinct streams; '
+                   'keys(buffers) == upstreams (invariant T2 of C15)',
+                   'lemma L-ZIP (induction over the inputs, proved in ZipLemmas)')
+
+    def make_self(self, I):
+        st = I.st
+        U = z3.Const('U', sym.SeqObjS)
+        Up, Us = z3.Const('Up', sym.SeqObjS), z3.Const('Us', sym.SeqObjS)
+        who = z3.Const('who', sym.Obj)
+        st.assume(U == z3.Concat(Up, z3.Unit(who), Us))
+        st.assume(z3.Not(z3.Contains(Up, z3.Unit(who))))
+        st.assume(z3.Not(z3.Contains(Us, z3.Unit(who))))
+        bv = z3.Const('bufvals0', PairArr)
+        u0 = z3.Const('u0', sym.Obj)
+        st.assume(z3.Contains(U, z3.Unit(u0)))
+        e0 = z3.Const('e0', sym.Obj)           # node invariant: some buffer is empty
+        st.assume(z3.Contains(U, z3.Unit(e0)))
+        st.assume(z3.Length(z3.Select(bv, e0)) == 0)
+        m = z3.Int('maxsize')
+        st.assume(m >= 1)
+        g = st.ghost
+        g['u0'] = VRef(u0, 'Stream')
+        g['notify_all_calls'] = VInt(0)
+        g['notify_one_calls'] = VInt(0)
+        g['notified_before_emit'] = VBool(True)
+        g['all_nonempty_flag'] = VBool(False)
+        g['eff_before_pop'] = bv
+        g['empty_witness'] = VRef(z3.Const('no_witness', sym.Obj), 'Stream')
+        g['wait_future'] = VAw(z3.Const('no_wait_future', sym.Aw))
+        g['_split_hints'] = [(U, who, Up, Us)]
+        self._t = (U, who, bv, u0, e0, Up, Us)
+        bufs = st.new_dict(DictCell(U, bv, K_OBJ, sym.K_ELEMS, vlist=K_ELEM, vpytype='deque'))
+        return {'buffers': bufs, 'upstreams': st.new_list(U, K_OBJ), 'maxsize': VInt(m), 'literals': VTuple([]),
+                '_condition': VRef(z3.Const('cond', sym.Obj), 'Condition')}
+
+    held_text = 'held_all()'
+
+    def skolems(self, I):
+        U, who, bv, u0, e0, Up, Us = self._t
+        out = [who, u0, e0]
+        w = I.st.ghost.get('empty_witness')
+        if w is not None:
+            out.append(w.t)
+        return out
+
+    def effective_vals(self, I, dv):
+        """the buffers as one array, with the list objects handed out through aliases written back"""
+        c = I.st.heap[dv.loc]
+        eff = c.vals
+        for ak, loc in c.aliases:
+            eff = z3.Store(eff, ak, I.st.heap[loc].term)
+        return eff
+
+    def summaries(self):
+        d = NodeUpdate.summaries(self)
+
+        def notify_all(I, recv, args, kwargs):
+            g = I.st.ghost
+            g['notify_all_calls'] = VInt(g['notify_all_calls'].t + 1)
+            g['notified_before_emit'] = VBool(z3.And(g['notified_before_emit'].t, z3.Length(g['emitted'].t) == 0))
+            return NONE
+
+        def notify(I, recv, args, kwargs):
+            g = I.st.ghost
+            g['notify_one_calls'] = VInt(g['notify_one_calls'].t + 1)
+            return NONE
+
+        def wait(I, recv, args, kwargs):
+            g = I.st.ghost
+            a = VAw(z3.Const('wait_future', sym.Aw))
+            g['wait_future'] = a
+            return a
+        d.update({'Condition.notify_all': notify_all, 'Condition.notify': notify, 'Condition.wait': wait})
+        return d
+
+    def loop_specs(self):
+        return {('zip.update', 0): PopAllLoop(self)}
+
+    def spec_funcs(self):
+        d = NodeUpdate.spec_funcs(self)
+        U, who, bv, u0, e0, Up, Us = None, None, None, None, None, None, None
+
+        def dict_values(I, dv):
+            r = sym.VBuiltin('dictvalues')
+            r.dv = dv
+            return r
+
+        def all_(I, v):
+            if not (isinstance(v, sym.VBuiltin) and v.name == 'dictvalues'):
+                raise Unsupported('all() over %r' % (v,))
+            c = I.st.heap[v.dv.loc]
+            eff = self.effective_vals(I, v.dv)
+            b = z3.Bool(sym.fresh_name('all_buffers_nonempty'))
+            k = z3.Const(sym.fresh_name('k'), sym.Obj)
+            w = z3.Const(sym.fresh_name('empty_witness'), sym.Obj)
+            for u in self.skolems(I):
+                I.st.assume(z3.Implies(b, z3.Length(z3.Select(eff, u)) > 0))
+            I.st.assume(z3.Implies(z3.Not(b), z3.And(z3.Contains(c.keys, z3.Unit(w)), z3.Length(z3.Select(eff, w)) == 0)))
+            I.st.ghost['all_nonempty_flag'] = VBool(b)
+            I.st.ghost['empty_witness'] = VRef(w, 'Stream')
+            return VBool(b)
+
+        def comprehension(I, e, fr):
+            if _ast.unparse(e) == '[self.buffers[up][0] for up in self.upstreams]':
+                selfv = fr.locals['self']
+                dv = I.get_attr(selfv, 'buffers', fr)
+                c = I.st.heap[dv.loc]
+                ups = I.get_attr(selfv, 'upstreams', fr)
+                ut, _k = I.seq_term(ups)
+                eff = self.effective_vals(I, dv)
+                return VSeq(heads_of(eff, ut), K_ELEM)
+            return None
+
+        def zip_(I, args, kwargs, fr):
+            if len(args) == 1 and isinstance(args[0], tuple):
+                t, k = I.seq_term(args[0][1])
+                return VTuple([VSeq(sym.xs_of(t), K_ELEM, 'tuple'), VSeq(sym.mds_of(t), K_MD, 'tuple')])
+            raise Unsupported('zip(...)')
+
+        def unpack_elem(I, v, n):
+            return None
+
+        def heads(I):
+            """heads of all buffers (after the arrival was appended) in upstreams order, as recorded before the pop"""
+            g = I.st.ghost
+            return VSeq(heads_of(g['eff_before_pop'], self._t[0]), K_ELEM)
+
+        def heads_elem(I, u):
+            return VElem(z3.Select(I.st.ghost['eff_before_pop'], u.t)[0])
+
+        def xs_of(I, s):
+            return VSeq(sym.xs_of(I.seq_term(s)[0]), K_ELEM)
+
+        def mds_of(I, s):
+            return VSeq(sym.mds_of(I.seq_term(s)[0]), K_MD)
+
+        def pair(I, x, md):
+            return VElem(sym.f_mdpair(I.as_elem(x), I.seq_term(md)[0]))
+
+        def old_buf(I, u):
+            return VSeq(z3.Select(self._t[2], u.t), K_ELEM)
+
+        def buf(I, u):
+            selfv = self.pre_args['self']
+            dv = I.st.heap[selfv.loc].fields['buffers']
+            eff = self.effective_vals(I, dv)
+            return VSeq(z3.Select(eff, u.t), K_ELEM)
+
+        def held_all(I):
+            selfv = self.pre_args['self']
+            dv = I.st.heap[selfv.loc].fields['buffers']
+            c = I.st.heap[dv.loc]
+            return VInt(held_zip(self.effective_vals(I, dv), R, c.keys))
+
+        def others_nonempty(I):
+            """pre-state: every input other than `who` has a buffered element"""
+            U, who, bv, u0, e0, Up, Us = self._t
+            k = z3.Const(sym.fresh_name('k'), sym.Obj)
+            return VBool(z3.ForAll([k], z3.Implies(z3.And(z3.Contains(U, z3.Unit(k)), k != who), z3.Length(z3.Select(bv, k)) > 0)))
+        d.update({'dict_values': dict_values, 'all': all_, 'comprehension': comprehension, 'builtin_zip': zip_, 'heads': heads, 'heads_elem': heads_elem,
+                  'xs_of': xs_of, 'mds_of': mds_of, 'pair': pair, 'buf': buf, 'old_buf': old_buf, 'held_all': held_all,
+                  'others_nonempty': others_nonempty})
+        return d
+
+    def make_interp(self, index):
+        I = NodeUpdate.make_interp(self, index)
+        orig = I.dict_method
+
+        def dict_method(recv, name, args, kwargs):
+            if name == 'values' and I.st.heap[recv.loc].vlist is not None:
+                return self.spec_funcs()['dict_values'](I, recv)
+            return orig(recv, name, args, kwargs)
+        I.dict_method = dict_method
+        return I
+
+    def requires(self, I, selfv, x, who, md):
+        NodeUpdate.requires(self, I, selfv, x, who, md)
+
+    def clauses(self):
+        return [
+            Clause('C01.emits_only_when_every_input_has_an_element', ['C01', 'C02'], when='return',
+                   text='len(emitted) <= 1 and implies(len(emitted) == 1, old(len(buf(who))) == 0 and '
+                        'implies(u0 is not who, old(len(buf(u0))) > 0))',
+                   note='for an arbitrary other input u0: a tuple is emitted only if u0 has a buffered element (and the arrival filled the last gap)'),
+            Clause('C01.emits_as_soon_as_every_input_has_an_element', ['C01', 'C02'], when='return',
+                   text='implies(len(emitted) == 0, old(len(buf(who))) > 0 or '
+                        '(empty_witness in self.upstreams and empty_witness is not who and len(old_buf(empty_witness)) == 0))',
+                   note='if nothing is emitted some input is still missing its element: the node never sits on a complete tuple'),
+            Clause('C01.tuple_is_the_heads_in_input_order', ['C01', 'C02'], when='return',
+                   text='implies(len(emitted) == 1, emitted == [tup(xs_of(heads()))])',
+                   note='the oldest unconsumed element of every input, in the order of the inputs'),
+            Clause('C10.metadata_of_the_tuple_members_in_input_order', ['C10'], when='return',
+                   text='implies(len(emitted) == 1, emitted_md == [flat(mds_of(heads()))])'),
+            Clause('C01.buffers_after_step', ['C01', 'C02'], when='return',
+                   text='implies(len(emitted) == 0, buf(u0) == (old(buf(u0)) + [pair(x, metadata)] if u0 is who else old(buf(u0)))) and '
+                        'implies(len(emitted) == 1, [heads_elem(u0)] + buf(u0) == (old(buf(u0)) + [pair(x, metadata)] if u0 is who else old(buf(u0))))',
+                   note='for an arbitrary input u0: the arrival is appended to its own buffer; an emission consumes exactly the head of every buffer'),
+            Clause('C03.wakes_every_blocked_producer_before_emitting', ['C03'], when='return',
+                   text='implies(len(emitted) == 1, notify_all_calls == 1 and notified_before_emit)',
+                   note='all inputs share one condition: every producer blocked on a full buffer must be woken when the buffers shrink'),
+            Clause('C03.blocks_the_producer_only_beyond_maxsize', ['C03'], when='return',
+                   text='implies(len(emitted) == 0, (result is None) == (len(buf(who)) <= self.maxsize)) and '
+                        'implies(len(emitted) == 0 and len(buf(who)) > self.maxsize, result == wait_future)'),
+            Clause('C03.returns_emit_result', ['C03'], when='return', text='implies(len(emitted) == 1, result == emit_rets[0])'),
+        ] + self.standard_clauses() + downstream_raise_clauses(self)
+
+
+ALL += [ZipUpdate]
